@@ -400,9 +400,16 @@ def check_family_dist(ctx, fam, P, r, nb, units, do_sample=True):
     s = _setup()
     jnp, jr, unwrap = s["jnp"], s["jr"], s["unwrap"]
     u1a, u1b, u2, u3, uo = units
-    dist = build(fam, P)
     B = bparams(fam, P)
     shape = next(iter(B.values())).shape
+    try:
+        dist = build(fam, P)
+    except Exception as e:  # valid parameters must be accepted
+        units[0].count((fam, ptag(P), "ctor", hx(list(P.values())[0])), nontrivial=True, tag=f"{fam}:constructor-raised")
+        ctx.violation(sig=f"{FAMS[fam][0]}.__init__:raised", what=f"{FAMS[fam][0]} rejects valid parameters {({k: np.asarray(v).tolist() for k, v in P.items()})}: {type(e).__name__}: {str(e)[:200]}",
+                      case={"kind": "ctor", "family": fam, "params": case_json(fam, P, np.zeros(()))["params"]}, found_input=True, unit="U2-accessors",
+                      expected="a distribution object", observed=f"{type(e).__name__}", broken="correspondence U2 (constructor)")
+        return None
     x, tags = gen_points(fam, P, dist, nb, r)
     pt = ptag(P)
     try:
@@ -576,7 +583,7 @@ def ks_family(fam, P, dist, key, n=N_KS):
 
 def run_families(ctx):
     r = ctx.rng
-    nb = 40 if ctx.quick else 120
+    nb = 36 if ctx.quick else 120
     reps = 1 if ctx.quick else 8
     units = (
         ctx.unit("U1a-log_prob-ctor", "dist.log_prob(x) vs Model.Dens.class_log_prob fed the RAW constructor arguments (Gallina broadcast); 9 families x "
@@ -595,6 +602,9 @@ def run_families(ctx):
     for fam in FAMS:
         nargs = len(FAMS[fam][1])
         shapes = {1: [(sh,) for sh in SHAPES1], 2: SHAPES2, 3: SHAPES3}[nargs]
+        if ctx.quick:  # scalar / vector / matrix / rank-3 and every broadcasting direction stay in the quick tier
+            keep = {1: (0, 1, 2, 3), 2: (0, 1, 2, 3, 4, 5, 6, 11), 3: (0, 1, 2, 4, 5, 6, 7)}[nargs]
+            shapes = [shapes[i] for i in keep]
         for shs in shapes:
             for _ in range(reps):
                 P = draw_params(fam, shs, r)
@@ -654,7 +664,10 @@ def run_ks(ctx):
                 P = draw_params(fam, cfg[:nargs], r)
                 if fam == "studentt":
                     P["df"] = np.clip(P["df"], 0.3, 1e3)
-                dist = build(fam, P)
+                try:
+                    dist = build(fam, P)
+                except Exception:
+                    continue  # reported by U1/U2
                 key = s["jr"].PRNGKey(int(r.integers(0, 2**31 - 1)))
                 failed, msg, d = ks_family(fam, P, dist, key)
                 worst = max(worst, d)
@@ -707,7 +720,7 @@ def run_mixtures(ctx):
     nb = 24 if ctx.quick else 64
     reps = 1 if ctx.quick else 6
     for fam in FAMS:
-        for (ncomp, eshape) in [(2, ()), (3, ()), (5, ()), (3, (2,))]:
+        for (ncomp, eshape) in ([(2, ()), (3, ()), (4, (2,))] if ctx.quick else [(2, ()), (3, ()), (5, ()), (3, (2,)), (4, (2,))]):
             for _ in range(reps):
                 nargs = len(FAMS[fam][1])
                 Ps = [draw_params(fam, (eshape,) * nargs, r) for _ in range(ncomp)]
@@ -717,7 +730,11 @@ def run_mixtures(ctx):
                 names = FAMS[fam][1]
                 stacked = {n: jnp.asarray(np.stack([P[n] for P in Ps])) for n in names}
                 cls = getattr(fd, FAMS[fam][0])
-                comp = eqx.filter_vmap(lambda kw: cls(**kw))(stacked)
+                try:
+                    comp = eqx.filter_vmap(lambda kw: cls(**kw))(stacked)
+                    [build(fam, P) for P in Ps]
+                except Exception:
+                    continue  # constructor failures on valid parameters are reported by U1/U2
                 w = np.exp(r.normal(0, 1.2, size=ncomp)) * float(np.exp(r.normal(0, 2)))
                 kscale = float(np.exp(r.normal(0, 3)))
                 m1 = fd.VmapMixture(comp, jnp.asarray(w))
@@ -909,11 +926,12 @@ def run_mvn(ctx):
 
 
 def run(ctx):
+    import time
     _setup()
-    run_families(ctx)
-    run_ks(ctx)
-    run_mixtures(ctx)
-    run_mvn(ctx)
+    for name, fn in (("families", run_families), ("ks", run_ks), ("mixtures", run_mixtures), ("mvn", run_mvn)):
+        t0 = time.time()
+        fn(ctx)
+        ctx.notes.append(f"phase {name}: {time.time() - t0:.1f}s")
     ctx.assumptions += [
         "valid parameters: 0 < scale, 0 < df, 0 < rate, minval < maxval, positive weights, SPD covariance (Cholesky diagonal > 0)",
         "jax.random.{normal,uniform,gumbel,cauchy,t,laplace,exponential,logistic,categorical} draw from the named law (assumed in Coq; KS-tested here)",
@@ -943,6 +961,14 @@ def replay(ctx, rep):
         failed, msg, d = ks_family(fam, P, dist, jnp.asarray(c["key"], dtype=jnp.uint32))
         print("KS", msg)
         return not failed
+    if kind == "ctor":
+        fam, P, _ = from_case({**c, "x": {"shape": [], "hex": "0x0p+0"}})
+        try:
+            build(fam, P)
+            return True
+        except Exception as e:
+            print("constructor raised", type(e).__name__, str(e)[:200])
+            return False
     if kind == "accessor":
         fam, P, _ = from_case({**c, "x": {"shape": [], "hex": "0x0p+0"}})
         dist = build(fam, P)
